@@ -193,8 +193,15 @@ def make(kind, seed, world, ip, tap, reach):
                     if which in (name, 'both') and p['selectors']:
                         sel = p['selectors'][0]
                         n = len(sel['saddr'])
-                        how = r.choice(['all_addresses', 'all_ports', 'any_proto', 'one_more'])
-                        if how == 'all_addresses':
+                        how = r.choice(['all_addresses', 'all_ports', 'any_proto', 'one_more', 'port_range_up'])
+                        if how == 'port_range_up':
+                            if sel['sport'] == sel['eport'] and 0 < sel['sport'] < 65535:
+                                sel['eport'] = min(65535, sel['sport'] + r.choice([1, 57, 8000]))
+                            else:
+                                how = 'one_more'
+                        if how == 'port_range_up':
+                            pass
+                        elif how == 'all_addresses':
                             sel['saddr'], sel['eaddr'] = b'\0' * n, b'\xff' * n
                         elif how == 'all_ports':
                             if (sel['sport'], sel['eport']) == (0, 65535):
@@ -857,6 +864,13 @@ def make(kind, seed, world, ip, tap, reach):
                                 e['saddr'], e['eaddr'] = (a ^ (1 << (8 * n - 2))).to_bytes(n, 'big'), (z ^ (1 << (8 * n - 2))).to_bytes(n, 'big')
                             extra.append(e)
                         p['selectors'] = (extra + p['selectors']) if r.random() < 0.5 else (p['selectors'][:1] + extra + p['selectors'][1:])
+                        if r.random() < 0.4:
+                            # a real port range (RFC 7296 3.13.1) that starts at the port asked for and ends beyond it: only its first port
+                            # can lie inside a single-port policy
+                            for e in p['selectors']:
+                                if e['sport'] == e['eport'] and 0 < e['sport'] < 65535:
+                                    e['eport'] = min(65535, e['sport'] + r.choice([1, 57, 8000]))
+                                    count('byz.ts_list_request.port_range_from_policy_port')
             count('byz.' + kind)
             new = ip.seal(s, {'spi_i': h['spi_i'], 'spi_r': h['spi_r'], 'exch': h['exch'], 'I': h['I'], 'R': False, 'id': h['id']}, pls, _rb(r, 16))
             return [(new, 0.0)]
